@@ -30,9 +30,9 @@ fn plan(tier: Tier) -> Vec<Unit> {
     match tier {
         Tier::Quick => {
             v.extend(crate::util::split_budget("boundary", 19 * 6, 6)); // k x limb-count, each unit enumerates offsets and variants
-            v.extend(crate::util::split_budget("random", 120_000, 2_000));
-            v.extend(crate::util::split_budget("triples", 20_000, 1_000));
-            v.extend(crate::util::split_budget("wide", 4_000, 1_000));
+            v.extend(crate::util::split_budget("random", 800_000, 5_000));
+            v.extend(crate::util::split_budget("triples", 100_000, 2_000));
+            v.extend(crate::util::split_budget("wide", 20_000, 2_000));
         }
         Tier::Thorough => {
             v.extend(crate::util::split_budget("boundary", 19 * 6, 2));
@@ -41,7 +41,7 @@ fn plan(tier: Tier) -> Vec<Unit> {
             v.extend(crate::util::split_budget("wide", 200_000, 10_000));
         }
         Tier::Miri => {
-            v.extend(crate::util::split_budget("boundary", 2, 1));
+            // (≈ 60 ms per monitored call under Miri: no enumerated boundary unit, a few dozen pairs per shard)
             v.extend(crate::util::split_budget("random", 24, 6));
             v.extend(crate::util::split_budget("triples", 4, 2));
             v.extend(crate::util::split_budget("wide", 4, 2));
